@@ -71,9 +71,11 @@ def gen_xpkg_case(rng):
         st['T'] = rng.choice([345., 355., 360., 350.]); st['P'] = rng.choice([101325., 101325., 80000.])
     return {'kind': 'xpkg', 'steps': steps}
 
-# Stream.link_with(other, TP=True) (the default) replaces the stream's thermal condition but keeps the equilibrium caches that
-# were built with the old one: a later vle(T=, P=) writes the specified T and P to the orphaned object (pending_fixes/C04_4)
-PENDING = [
+# Witnesses of defects for which a fix is proposed in pending_fixes/ and not yet in /repo (run with VERIF_PENDING=1).
+PENDING = []
+# Stream.link_with(other, TP=True) replaced the thermal condition but kept the equilibrium caches built with the old one
+# (repaired by /repo 3de5c56): regression cases
+LINK_CORPUS = [
     {'kind': 'vleh', 'mode': 'real', 'phases': 'lg', 'l': [30., 10., 0., 0., 0., 0., 0.], 'g': [0.] * 7, 's': [0.] * 7, 'T0': 300., 'P0': 101325.,
      'co': None, 'draws': [0.5], 'spec': {}, 'sk': 'TP',
      'ops': [['vle', 'TP', {'T': 360., 'P': 101325.}], ['link', [10., 30., 0., 0., 0., 0., 0.], [0.] * 7, 310., 90000., True],
@@ -446,7 +448,12 @@ def oracle(case):
     return None
 
 def finding_key(case, msg):
-    return 'C04:' + msg.split(':')[0]
+    """'C04:vle(TS)' / 'C04:vle(TH)' are reserved for 'pressure search stopped off the root' (the registered finding); a T,S / T,H
+    result that is not even an equilibrium state at its own (T, P) gets another key, so that a regression is not masked"""
+    head = msg.split(':')[0]
+    if 'pressure search stopped off the root' in head: return 'C04:' + head.split(' ')[0]
+    if head in ('vle(TS)', 'vle(TH)'): return 'C04:' + head + '-not-reproduced'
+    return 'C04:' + head
 
 def _w(sk, spec, l, g):
     return {'kind': 'vle', 'mode': 'real', 'phases': 'lg', 'l': l, 'g': g, 's': [0.] * 7, 'spec': spec, 'sk': sk,
@@ -457,14 +464,13 @@ CORPUS = [
     _w('Tx', {'T': 360., 'x': [0.8, 0.2]}, [30., 10., 0, 0, 0, 0, 0], [0.] * 7),
     _w('Px', {'P': 50000., 'x': [0.8, 0.2]}, [30., 10., 0, 0, 0, 0, 0], [0.] * 7),
     _w('TH', {'T': 350., 'H': ['frac', 0.5]}, [30., 0, 0, 0, 0, 0, 0], [0.] * 7),
-]
+] + LINK_CORPUS
 
 # witnesses of defects of the unchanged tree (see the report): active once listed in known_findings.txt, or with VERIF_PENDING=1
 import vf as _vf
 _ALL_WITNESSES = [
-    {'key': 'C04:vle(TS) pressure search stopped off the root',
+    {'key': 'C04:vle(TS)',
      'case': {'kind': 'vle', 'mode': 'real', 'phases': 'lg', 'l': [12.5, 4.0, 8.0, 0., 0., 0., 0.], 'g': [0.25, 3.0, 0., 0., 0., 0., 0.], 's': [0.] * 7,
               'spec': {'T': 350.5, 'S': ['frac', 0.5]}, 'sk': 'TS', 'T0': 298.15, 'P0': 101325., 'co': None, 'draws': []}},
-    {'key': 'C04:vle(TP) call 2 of a history', 'case': PENDING[0]},
 ]
 WITNESSES = [w for w in _ALL_WITNESSES if (ID, w['key']) in _vf.load_known() or os.environ.get('VERIF_PENDING')]
